@@ -446,4 +446,10 @@ def r15_8(ctx):
     borrow(ctx, r3_3, "R3.3", "R15.8", " [captured output equals what would have been written: colour removal happens in the renderer both paths share]")
 
 
-RULES = [r15_1, r15_2, r15_3, r15_4, r15_5, r15_6, r15_7, r15_8]
+def r15_9(ctx):
+    from .c06 import r6_5
+    from .common import borrow
+    borrow(ctx, r6_5, "R6.5", "R15.9", " [the styled export decodes to the printed styles: every set attribute reaches the SGR codes (guard masks of _make_ansi_codes cover every attribute bit)]")
+
+
+RULES = [r15_1, r15_2, r15_3, r15_4, r15_5, r15_6, r15_7, r15_8, r15_9]
